@@ -89,3 +89,45 @@ class ClassIndex:
             if c and meth in c.methods:
                 return c, c.methods[meth]
         return None, None
+
+
+def inline_inherited_new_helpers(ctx, idx, class_names):
+    """undo 'move shared code of a method and its overrides into a private method of the base class': a private method of a base
+    class that the reference does not have (by the inventory of the base's module) is copied into every subclass that calls it
+    through `self`, and inlined there by the ordinary helper pass (normalize.inline_new_helpers).  Returns the number of classes
+    touched; the Source objects of the affected modules are updated in place."""
+    import copy as _copy
+    from . import localnames, normalize
+    touched = 0
+    for cname in class_names:
+        ci = idx.classes.get(cname)
+        if ci is None:
+            continue
+        src = ctx.src(ci.rel)
+        own = {m.name for m in ci.node.body if isinstance(m, (ast.FunctionDef, ast.AsyncFunctionDef))}
+        called = {c.func.attr for m in ci.node.body if isinstance(m, ast.FunctionDef) for c in ast.walk(m)
+                  if isinstance(c, ast.Call) and isinstance(c.func, ast.Attribute) and isinstance(c.func.value, ast.Name) and c.func.value.id == "self"}
+        added = False
+        for bname in idx.mro(cname)[1:]:
+            bi = idx.classes.get(bname)
+            if bi is None or bi.rel == ci.rel:
+                continue
+            ref_funcs = set((localnames.table().get(bi.rel, {}).get("__inventory__") or {}).get("functions", []))
+            if not ref_funcs:
+                continue
+            removed = [fn for (owner, _), fn in getattr(ctx.src(bi.rel).tree, "_removed_helpers", {}).items() if owner == bname]
+            for m in list(bi.node.body) + removed:
+                if isinstance(m, ast.FunctionDef) and m.name.startswith("_") and not m.name.startswith("__") and m.name in called \
+                        and m.name not in own and f"{bname}.{m.name}" not in ref_funcs:
+                    ci.node.body.append(_copy.deepcopy(m))
+                    own.add(m.name)
+                    added = True
+        if added:
+            inv = localnames.table().get(ci.rel, {}).get("__inventory__") or {}
+            normalize.inline_new_helpers(src.tree, set(inv.get("functions", [])))
+            ast.fix_missing_locations(src.tree)
+            src._funcs = None
+            src._classes = None
+            src.normalised["inherited-helpers"] = src.normalised.get("inherited-helpers", 0) + 1
+            touched += 1
+    return touched
